@@ -1230,6 +1230,30 @@ static void build_expr(WorkList *list, ASTNode *expr, Environment *env) {
                 }
             }
 
+            /* cast_int / cast_bool: choose the helper by operand type.  nl_cast_int takes a double (an int operand
+             * above 2^53 lost its low bits, a string operand did not compile); nl_cast_bool takes an int64_t
+             * (a float operand was truncated first: cast_bool 0.5 was false) */
+            else if ((strcmp(func_name, "cast_int") == 0 || strcmp(func_name, "cast_bool") == 0) &&
+                     expr->as.call.arg_count == 1) {
+                ASTNode *arg = expr->as.call.args[0];
+                Type arg_type = check_expression(arg, env);
+                bool to_int = (strcmp(func_name, "cast_int") == 0);
+                const char *helper = to_int ? "nl_cast_int" : "nl_cast_bool";
+                if (to_int && (arg_type == TYPE_INT || arg_type == TYPE_U8 || arg_type == TYPE_ENUM)) {
+                    helper = "nl_cast_int_from_int";
+                } else if (to_int && arg_type == TYPE_BOOL) {
+                    helper = "nl_cast_bool_to_int";
+                } else if (to_int && arg_type == TYPE_STRING) {
+                    helper = "nl_cast_int_from_string";
+                } else if (!to_int && arg_type == TYPE_FLOAT) {
+                    helper = "nl_cast_bool_from_float";
+                }
+                emit_literal(list, helper);
+                emit_literal(list, "(");
+                build_expr(list, arg, env);
+                emit_literal(list, ")");
+            }
+
             /* Result<T,E> helpers (intrinsics; generic-function stopgap) */
             else if (strcmp(func_name, "result_is_ok") == 0 && expr->as.call.arg_count == 1) {
                 emit_literal(list, "({ __auto_type _r = ");
